@@ -66,4 +66,3 @@ func abiSkipLiteral(f *ast.File, fn string) string {
 func genNames(t *target, facts map[string]interface{}) error     { return nil }
 func genSkeletons(t *target, facts map[string]interface{}) error { return nil }
 func genPurity(t *target, facts map[string]interface{}) error    { return nil }
-func genConsts(t *target, facts map[string]interface{}) error    { return nil }
